@@ -35,7 +35,7 @@ def run(c):
         with open(scn, "w") as f:
             f.write("\n".join(scns) + "\n")
         trace = c.scratch + "/admit.ndjson"
-        args = ["-scn", scn, "-out", trace, "-k", 5 if c.thorough else 1]
+        args = ["-scn", scn, "-out", trace, "-k", 2 if c.thorough else 1]
         c.run_driver(drv, args + (["-canon"] if c.thorough else []))
     r = c.validate("DRKeyAdmitTrace", "DRKeyAdmitTrace.cfg", trace, timeout=1500)
     lines = _crypto.judge_cases(c, r, trace, vlib, sidecar=trace + ".conc")
